@@ -386,7 +386,7 @@ def correspondence(ctx):
     fz = forced(["tilde", "caret"])
     for i in range(per + len(fz)):
         a = rv(rng, 0, 4)
-        kind = rng.choice(["tilde", "caret", "interval", "exact", "ge"])
+        kind = rng.choice(["tilde", "caret", "interval", "exact", "ge", "alts", "alts"])
         if i < len(fz):
             kind, a = fz[i]
         b = (a[0] + rng.randint(1, 2), rng.randint(0, 5), rng.randint(0, 5))
@@ -401,10 +401,21 @@ def correspondence(ctx):
             e, bd, f = ">=%s <%s" % (rel(*a), rel(*b)), [a, b], (lambda p: a <= p < b)
         elif kind == "exact":
             e, bd, f = "=" + rel(*a), [a], (lambda p: p == a)
+        elif kind == "alts":
+            # alternatives in any written order: an open-ended or exact one first, an interval after it
+            c = (b[0] + 1, rng.randint(0, 3), 0)
+            first = rng.choice([">=%s" % rel(*c), "=%s" % rel(*c), ">%s" % rel(*c)])
+            fin = {">=": (lambda p: p >= c), "=": (lambda p: p == c), ">": (lambda p: p > c)}[first.rstrip("0123456789.")]
+            second = rng.choice([">=%s <%s" % (rel(*a), rel(*b)), "<%s" % rel(*a)])
+            sin = (lambda p: a <= p < b) if second.startswith(">=") else (lambda p: p < a)
+            parts = [first, second]
+            if rng.random() < 0.4:
+                parts.reverse()
+            e, bd, f = " || ".join(parts), [a, b, c], (lambda p, fin=fin, sin=sin: fin(p) or sin(p))
         else:
             e, bd, f = ">=" + rel(*a), [a], (lambda p: p >= a)
         check(ctx, "conan", e, VR.ConanVersionRange.from_native, V.ConanVersion,
-              lambda t, f=f: f(tuple(int(i) for i in t.split("."))), bd, kind in ("tilde", "caret", "interval"))
+              lambda t, f=f: f(tuple(int(i) for i in t.split("."))), bd, kind in ("tilde", "caret", "interval", "alts"))
         try:
             cr = ConanRange(e)
         except Exception:  # noqa: BLE001 — the vendored matcher itself fails: no second opinion
